@@ -149,8 +149,28 @@ let cmd_sum_waveform rest =
                                   String.concat " " (List.map q_str p.sp_data)]) out))
   | _ -> "BAD"
 
+(* hdr upper bs n data[n] k (fnum fden)[k] *)
+let cmd_hdr rest =
+  match ints rest with
+  | upper :: bs :: n :: r ->
+      let (data, r) = split n r in
+      let k = List.hd r in
+      let rec fr j l = if j = 0 then [] else
+        (match l with a :: b :: tl -> q_of_frac a b :: fr (j - 1) tl | _ -> failwith "fr") in
+      let fs = fr k (List.tl r) in
+      (match highest_density_region (zl data) fs (upper <> 0) (z_of_int bs) with
+       | Err e -> Printf.sprintf "err %d" (iz e)
+       | Ok outs ->
+           String.concat " | " ("ok" :: List.map (fun o ->
+             (match o.ho_iv with
+              | None -> "-1"
+              | Some ivs -> join (List.length ivs :: List.concat_map (fun (s, e) -> [iz s; iz e]) ivs))
+             ^ " " ^ q_str o.ho_amp) outs))
+  | _ -> "BAD"
+
 let handle toks =
   match toks with
+  | "hdr" :: rest -> cmd_hdr rest
   | "sum_waveform" :: rest -> cmd_sum_waveform rest
   | "split" :: rest -> cmd_split rest
   | "split_lm" :: rest -> cmd_split_lm rest
